@@ -216,6 +216,18 @@ func (w *World) Do(c Call) error {
 		return f.Close()
 	case "Archive":
 		return w.archiveBatch(c)
+	case "Open":
+		f, err := fs.OpenFile(p, openFlags(c.K), filePerm)
+		if err != nil {
+			return err
+		}
+		if c.C != "" {
+			if _, err := f.Write(w.Chunk(c.C)); err != nil {
+				_ = f.Close()
+				return err
+			}
+		}
+		return f.Close()
 	case "Remove":
 		return fs.Remove(p)
 	case "RemoveAll":
